@@ -154,6 +154,14 @@ func (p *SolverProc) Query(script string, exprs []string, timeoutMs int) QueryRe
 		return r
 	}
 	r.Status = status
+	if status == "unknown" {
+		p.seq++
+		marker = fmt.Sprintf("DONE-%d", p.seq)
+		io.WriteString(p.in, fmt.Sprintf("(get-info :reason-unknown)\n(echo \"%s\")\n", marker))
+		if ls, ok := p.readUntil(marker, 10*time.Second); ok {
+			r.Err = strings.Join(ls, " ")
+		}
+	}
 	if status == "sat" && len(exprs) > 0 {
 		p.seq++
 		marker = fmt.Sprintf("DONE-%d", p.seq)
